@@ -159,13 +159,28 @@ func awaitPandoraTermination(pandora *engine.Engine, gracefulShutdown func(), er
 			log.Fatal("Unexpected signal received. Quiting.", zap.Stringer("signal", sig))
 		}
 
+		timeout := time.After(interruptTimeout)
 		select {
-		case <-time.After(interruptTimeout):
+		case <-timeout:
 			log.Fatal("Interrupt timeout exceeded")
 		case sig := <-sigs:
 			log.Fatal("Another signal received. Quiting.", zap.Stringer("signal", sig))
 		case err := <-errs:
-			log.Fatal("Engine interrupted", zap.Error(err))
+			// Engine.Run returns as soon as its context is canceled. Aggregators are still
+			// draining and flushing their queues: await them before exit, or results are lost.
+			tasksFinished := make(chan struct{})
+			go func() {
+				pandora.Wait()
+				close(tasksFinished)
+			}()
+			select {
+			case <-timeout:
+				log.Fatal("Interrupt timeout exceeded")
+			case sig := <-sigs:
+				log.Fatal("Another signal received. Quiting.", zap.Stringer("signal", sig))
+			case <-tasksFinished:
+				log.Fatal("Engine interrupted", zap.Error(err))
+			}
 		}
 
 	case err := <-errs:
